@@ -60,7 +60,7 @@ def plan(tier):
 
 
 def run(tier, seed):
-    return checkbase.run_e1("C05", tier, seed, TECH, (lambda: plan(tier)), monitors.c05, 300, 1800,
+    return checkbase.run_e1("C05", tier, seed, TECH, (lambda: plan(tier)), monitors.c05, 480, 2400,
                             "executions = complete runs of the real traversal over graphs with removable (unset_mode f.) states, one per choice sequence "
                             "(durations, PASS/FAIL outcomes, tie order) with at most k non-default choices, lazy and eager parsing, unset_mode/pool_filter/"
                             "retry settings; distinct = distinct (scenario, (worker,test,status) sequence)",
